@@ -211,6 +211,24 @@ class PCSO(PUSO):
         """
         PCBO.update(self, *args, **kwargs)
 
+    def __imul__(self, other):
+        """__imul__.
+
+        Define the self multiplication of the PCSO. The recorded constraints
+        and the ancilla counter are kept. See ``PCBO.__imul__``.
+
+        Parameters
+        ----------
+        other : a dict or number.
+
+        Return
+        ------
+        self : PCSO object.
+            Updates in place.
+
+        """
+        return PCBO.__imul__(self, other)
+
     @property
     def constraints(self):
         """constraints.
